@@ -257,8 +257,8 @@ def cli_main():
             status, state = dfu_get_status(dev)
 
         if status != STATUS_OK:
-            print('error erasing page:')
-            print(STATUS_DESCRIPTION[status])
+            print()
+            raise SystemExit('error erasing page 0x{:08x}: {}'.format(addr, STATUS_DESCRIPTION[status]))
 
     print()
 
@@ -279,6 +279,10 @@ def cli_main():
         while state == STATE_DFU_DNBUSY:
             status, state = dfu_get_status(dev)
 
+        if status != STATUS_OK:
+            print()
+            raise SystemExit('error setting address 0x{:08x}: {}'.format(addr, STATUS_DESCRIPTION[status]))
+
         # write the code chunk
         dfuse_download(dev, code)
 
@@ -288,8 +292,8 @@ def cli_main():
             status, state = dfu_get_status(dev)
 
         if status != STATUS_OK:
-            print('error writing page:')
-            print(STATUS_DESCRIPTION[status])
+            print()
+            raise SystemExit('error writing page 0x{:08x}: {}'.format(addr, STATUS_DESCRIPTION[status]))
 
     print()
     print('done!')
